@@ -71,4 +71,9 @@ def run (e : Env X H) (pages : List (List (Line X))) : St H × List (List (Optio
     let (s', out) := processPage e acc.1 pg
     (s', acc.2 ++ [out])) (init, [])
 
+/-- the page object after a pass: every line carries the transcription the pass assigned to it (same logits, hence the same
+answer of `line_confident_enough`) -/
+def writeBack (pg : List (Line X)) (out : List (Option Str)) : List (Line X) :=
+  List.zipWith (fun l t => { l with text := t }) pg out
+
 end PD
